@@ -40,6 +40,13 @@ def tie_package(rng, gated: set) -> dict:
             files[f"src/pk/{p}/__init__.py"] = "from pk.core.things import Thing\nfrom pk.core.things import make_thing\n"
             files[f"src/pk/{p}/local_{p}.py"] = f"def only_{p}() -> None: ...\n"
         files["src/pk/user_of_thing.py"] = "from pk.core.things import Thing\n\n\ndef use(x: Thing) -> Thing: ...\n"
+    # members that type-checker plugins generate (their order is the plugin's business), the decorator in every spelling
+    body = "    def __init__(self, v: int) -> None:\n        self.v = v\n\n    def __eq__(self, other: object) -> bool:\n        return True\n\n    def __lt__(self, other: object) -> bool:\n        return True\n\n\n"
+    files["src/pk/plugin_made.py"] = (
+        "import functools\nimport functools as ft\nimport dataclasses\nfrom dataclasses import dataclass, dataclass as dc\nfrom functools import total_ordering, total_ordering as ordered\n\n\n"
+        + "".join(f"@{deco}\nclass Ord{k}:\n{body}" for k, deco in enumerate(["functools.total_ordering", "total_ordering", "ordered", "ft.total_ordering"]))
+        + "".join(f"@{deco}\nclass Data{k}:\n    b: int = 0\n    a: str = ''\n    c: float = 0.0\n\n\n" for k, deco in enumerate(["dataclass(order=True)", "dc(order=True, frozen=True)", "dataclasses.dataclass(order=True, eq=True)", "dc"]))
+    )
     # (b) the same short class name in several modules, each used next door
     for i, p in enumerate(("alpha", "beta", "gamma")):
         files[f"src/pk/{p}/__init__.py"] = ""
